@@ -194,7 +194,7 @@ class CHECK(vlib.Check):
                 "ReschedulePulseChild (tail shortcut, insertion walk, upward needs-recalc propagation), InvalidatePulseTime, "
                 "GetPulseTimeAux, PulseAux, PutPulseChild, RemovePulseChild, ClearPulseChildren, ~PulseNode, "
                 "PulseNodeManager::CallGetPulseTimeAux/CallPulseAux (incl. its now>=aggregate guard); GetPulseTime()/Pulse() "
-                "are scriptable oracles that may operate on any node from inside the callback. "
+                "are scriptable oracles that may operate on any node from inside the callback (in the Coq model: arbitrary functions that also see the whole forest). "
                 "Not modelled: cycle-start time / time-slice suggestions; ReflectServer's own event loop is not modelled but exercised against the real clock by harness/pulse_srv_h.cpp (it only calls the two manager entry points per root).")
     premises = ["memory safety and object lifetime of the C++ (observed by ASan/UBSan in the harness only)",
                 "theorems reach_inv / recalc_min / recalc_asks / cycle_exact / step_total*: the GetPulseTime() oracle is an arbitrary function of (node, call index, now, previous time) that performs NO operations; reach_inv_safe / recalc_min_safe: it may perform any operations that do not invalidate/detach/re-attach/destroy a node whose own GetPulseTimeAux is running (checked dynamically by the instrumented run_s, which erases to the model); what remains excluded is exactly F16 (C20_reentrant_recalc_refuted, C20_f16_history_refused); no termination claim for GetPulseTime() callbacks that perform operations (two siblings invalidating each other from GetPulseTime() spin forever in the code as well); the Pulse() oracle is arbitrary and may perform any list of invalidate/attach/detach/clear/destroy operations on any nodes (reach_inv, cop_preserves, pulse_never_early_once) except in pulse_exact and step_total where it performs none",
@@ -202,7 +202,7 @@ class CHECK(vlib.Check):
                 "callers do not build parent cycles, do not operate on destroyed nodes, and call the manager entry points on parentless nodes only (the model's operations are no-ops otherwise; the harness applies the same guards)",
                 "an object destroyed from inside a callback while one of its own sweeps may be running is freed after the sweep (its destructor's unlinking happens at once); other objects are freed at once"]
     rule = ("histories over up to 7 scripted PulseNodes: create/attach/detach/clear/destroy/invalidate and manager cycles "
-            "(GetPulseTimeAux then PulseAux on a root) under a simulated clock; after EVERY top-level operation the callback log "
+            "(GetPulseTimeAux then PulseAux on a root) under a simulated clock; at EVERY callback entry (i.e. in the middle of the sweeps) and after EVERY top-level operation the callback log "
             "(node, call index, callback time, previous/scheduled time, reported minimum) and every node's _parent/_aggregatePulseTime/"
             "_myScheduledTime/_myScheduledTimeValid/_curList/three child lists are compared with the extracted model; the harness's own "
             "shadow oracle (requested times, staleness, attach history) and pointer-structure oracle are evaluated as well.  "
